@@ -431,6 +431,17 @@ def build_impl_generator(spec):
     if k == "pn":
         return PlaceNotationGenerator(spec["stage"], spec["method"], intkeys(spec["bob"]), intkeys(spec["single"]),
                                       spec["start_index"], spec["custom"])
+    if k == "xml":
+        # the --method path: the definition is fetched as CCCBR XML (faked) and parsed by the product
+        from wheatley.row_generation import method_place_notation_generator as mpg
+        from wheatley.row_generation import MethodPlaceNotationGenerator
+        old = mpg.requests.get
+        mpg.requests.get = fake_requests_get(spec["xml"])
+        try:
+            return MethodPlaceNotationGenerator("Some Title Minor", intkeys(spec["bob"]), intkeys(spec["single"]),
+                                                spec["custom"], spec["start_index"])
+        finally:
+            mpg.requests.get = old
     if k == "plain_hunt":
         return PlainHuntGenerator(spec["stage"], spec["custom"])
     if k == "dixon":
@@ -466,7 +477,7 @@ def payload_coq(p):
 def spec_coq(spec):
     k = spec["kind"]
     cust = F.opt(spec.get("custom"), F.ustr)
-    if k == "pn":
+    if k in ("pn", "xml"):
         return (f"(SPN {spec['stage']} {F.ustr(spec['method'])} {calldef_coq(spec['bob'])} "
                 f"{calldef_coq(spec['single'])} {F.z(spec['start_index'])} {cust})")
     if k == "plain_hunt":
@@ -837,3 +848,46 @@ class MethodRowsSuite:
 
     oracle_C01 = GenHistorySuite.oracle_C01
     oracle_C03 = GenHistorySuite.oracle_C03
+
+
+
+def method_xml(title, stage, blocks, symmetric):
+    """A CCCBR `simple.pl` answer: <symblock> notation + lead end, or one <block>."""
+    ns = "http://methods.ringing.org/NS/method"
+    if symmetric:
+        pn = f"<symblock>{blocks[0]}</symblock><symblock>{blocks[1]}</symblock>"
+    else:
+        pn = f"<block>{blocks[0]}</block>"
+    return (f'<?xml version="1.0"?><methods xmlns="{ns}"><method id="m1"><title>{title}</title>'
+            f"<stage>{stage}</stage><pn>{pn}</pn></method></methods>")
+
+
+class XmlMethodSuite(MethodRowsSuite):
+    """C02 for method definitions received as CCCBR XML (the --method path): symmetric (<symblock> notation
+    and lead end, each palindromic) and asymmetric (<block>) definitions, every start index and start row."""
+    name = "xml_methods"
+
+    def __init__(self):
+        MethodRowsSuite.__init__(self, with_calls=False, with_reset=True)
+
+    def one(self, rng, with_calls):
+        stage = rng.randint(3, 16)
+        sym = rng.random() < 0.7
+        if sym:
+            a = [random_change(rng, stage) for _ in range(rng.randint(1, 8))]
+            b = [random_change(rng, stage) for _ in range(rng.randint(1, 2))]
+            sa, sb = render_block(rng, a), render_block(rng, b)
+            expanded = a + a[-2::-1] + b + b[-2::-1]
+            method = f"&{sa},&{sb}"
+            xml = method_xml("Some Title Minor", stage, [sa, sb], True)
+        else:
+            a = [random_change(rng, stage) for _ in range(rng.randint(1, 12))]
+            sa = render_block(rng, a)
+            expanded = a
+            method = sa
+            xml = method_xml("Some Title Minor", stage, [sa], False)
+        L = len(expanded)
+        start_index = rng.randint(-3 * L, 3 * L) if rng.random() < 0.8 else 0
+        spec = {"kind": "xml", "stage": stage, "method": method, "xml": xml, "bob": None, "single": None,
+                "start_index": start_index, "custom": random_custom_row(rng, stage)}
+        return spec, {"expanded": expanded, "bobs": {}, "singles": {}}, L
